@@ -40,11 +40,11 @@ def isPartial (src : List Seg) : Bool :=
 
 /-- What an address filter constrains, as rendered into SQL:
     * `exact segs` — `key = 'a:b'`;
-    * `partial len cs` — optional `jsonb_array_length(key_array) = len` and, for each
+    * `part len cs` — optional `jsonb_array_length(key_array) = len` and, for each
       `(i, s) ∈ cs`, `key_array @@ ('$[i] == "s"')`. -/
 inductive Pattern
   | exact (segs : List Seg)
-  | partial (len : Option Nat) (cs : List (Nat × Seg))
+  | part (len : Option Nat) (cs : List (Nat × Seg))
   deriving DecidableEq, Repr
 
 /-- The `(index, segment)` constraints of `filterAccountAddress`: every segment
@@ -69,11 +69,11 @@ def lenConstraint (src : List Seg) : Option Nat :=
 
 /-- `filterAccountAddress` (accounts / volumes / aggregated balances). -/
 def Pattern.ofSegs (src : List Seg) : Pattern :=
-  if isPartial src then .partial (lenConstraint src) (constraintsFrom src 0) else .exact src
+  if isPartial src then .part (lenConstraint src) (constraintsFrom src 0) else .exact src
 
 /-- `filterAccountAddressOnTransactions`. -/
 def Pattern.ofSegsTx (src : List Seg) : Pattern :=
-  if isPartial src then .partial (lenConstraint src) (constraintsTxFrom src 0) else .exact src
+  if isPartial src then .part (lenConstraint src) (constraintsTxFrom src 0) else .exact src
 
 def Pattern.ofString (s : String) : Pattern := .ofSegs (segments s.toList)
 def Pattern.ofStringTx (s : String) : Pattern := .ofSegsTx (segments s.toList)
@@ -82,7 +82,7 @@ def Pattern.ofStringTx (s : String) : Pattern := .ofSegsTx (segments s.toList)
     `$[i] == "s"` on a shorter array selects nothing (lax jsonpath): `a[i]? = some s`. -/
 def matchesAddress : Pattern → List Seg → Bool
   | .exact segs, a => segs == a
-  | .partial len cs, a =>
+  | .part len cs, a =>
     (match len with | none => true | some n => a.length == n) &&
     cs.all (fun c => a[c.1]? == some c.2)
 
@@ -97,7 +97,7 @@ def explode (a : List Seg) : List (Nat × Option Seg) := explodeFrom a 0
     `sources_arrays @> '[{…}]'` for a partial address. -/
 def Pattern.toMap : Pattern → List (Nat × Option Seg)
   | .exact _ => []
-  | .partial len cs =>
+  | .part len cs =>
     cs.map (fun c => (c.1, some c.2)) ++ (match len with | none => [] | some n => [(n, none)])
 
 /-- jsonb containment of a flat object in a flat object. -/
@@ -130,7 +130,7 @@ def renderFilterAccountAddress (address key : String) : String :=
   let src := segments address.toList
   match Pattern.ofSegs src with
   | .exact _ => key ++ " = '" ++ String.ofList (escapeSQL address.toList) ++ "'"
-  | .partial len cs =>
+  | .part len cs =>
     let parts :=
       (match len with
         | none => []
